@@ -407,23 +407,26 @@ def dbPut (db : DB) (epoch cn : Nat) (chain : List Hdr) : DB × Err :=
 
 /-! ### garbage marks -/
 
+/-- one iteration of `markGarbageInContainer`: state = (bucket, `NewGarbage`, `PayloadDiff`) -/
+def markStep (epoch : Nat) (redundant : Bool) (acc : Cnr × Nat × Int) (id : Nat) : Cnr × Nat × Int :=
+  let (cur, newG, pay) := acc
+  match cur.garb.find? (·.1 == id) with
+  | some (_, wasRedundant) =>
+    if !redundant && wasRedundant then ({ cur with garb := insertGarb (id, false) cur.garb }, newG, pay)
+    else (cur, newG, pay)
+  | none =>
+    let (e, r) := cur.get id false true epoch
+    let pay :=
+      if e == .ok then
+        match r with
+        | some rec => if cur.inGarbage id == .available && rec.phy then pay - rec.size else pay
+        | none => pay
+      else pay
+    ({ cur with garb := insertGarb (id, redundant) cur.garb }, newG + 1, pay)
+
 /-- `markGarbageInContainer` -/
 def Cnr.markGarbageIn (c : Cnr) (epoch : Nat) (objs : List Nat) (redundant : Bool) : Cnr × Nat × Int :=
-  objs.foldl (fun (acc : Cnr × Nat × Int) id =>
-    let (cur, newG, pay) := acc
-    match cur.garb.find? (·.1 == id) with
-    | some (_, wasRedundant) =>
-      if !redundant && wasRedundant then ({ cur with garb := insertGarb (id, false) cur.garb }, newG, pay)
-      else (cur, newG, pay)
-    | none =>
-      let (e, r) := cur.get id false true epoch
-      let pay :=
-        if e == .ok then
-          match r with
-          | some rec => if cur.inGarbage id == .available && rec.phy then pay - rec.size else pay
-          | none => pay
-        else pay
-      ({ cur with garb := insertGarb (id, redundant) cur.garb }, newG + 1, pay)) (c, 0, 0)
+  objs.foldl (markStep epoch redundant) (c, 0, 0)
 
 /-- `DB.MarkGarbage` -/
 def dbMarkGarbage (db : DB) (epoch cn : Nat) (ids : List Nat) (redundant : Bool) : DB :=
@@ -447,6 +450,18 @@ def dbDeleteContainer (db : DB) (cn : Nat) : DB := db.filter (·.1 != cn)
 
 /-! ### delete -/
 
+/-- counters diff for removing the index of one record (`garbage`: it carried a removal mark) -/
+def recDiff (r : Rec) (garbage : Bool) : Diff :=
+  { gc := if garbage then -1 else 0, phy := if r.phy then -1 else 0,
+    root := if r.typ == .regular && r.root then -1 else 0,
+    ts := if r.typ == .tombstone then -1 else 0,
+    link := if r.typ == .link then -1 else 0,
+    lock := if r.typ == .lock then -1 else 0 }
+
+/-- remove everything stored under an id: its index keys and its removal mark -/
+def Cnr.dropId (c : Cnr) (id : Nat) : Cnr :=
+  { c with recs := c.recs.filter (·.id != id), garb := c.garb.filter (·.1 != id) }
+
 /-- `deleteMetadata` (recursive on the parent when its last child goes); `fuel` bounds the recursion.
 Returns the bucket, the diff and whether the object was missing / non-physical (`errNonPhy`). -/
 def Cnr.deleteMetadata (c : Cnr) : Nat → Nat → Bool → Cnr × Diff × Bool
@@ -462,19 +477,13 @@ def Cnr.deleteMetadata (c : Cnr) : Nat → Nat → Bool → Cnr × Diff × Bool
       if !isParent && !r.phy then (c, {}, true)
       else
         let garbage := (c.garb.find? (·.1 == id)).isSome
-        let c1 : Cnr := { c with recs := c.recs.filter (·.id != id), garb := c.garb.filter (·.1 != id) }
-        let d : Diff := { gc := if garbage then -1 else 0, phy := if r.phy then -1 else 0,
-                          root := if r.typ == .regular && r.root then -1 else 0,
-                          ts := if r.typ == .tombstone then -1 else 0,
-                          link := if r.typ == .link then -1 else 0,
-                          lock := if r.typ == .lock then -1 else 0 }
-        let (c2, d2) :=
-          if r.parentId != 0 && c1.parentInfo r.parentId == .none then
-            let (cp, dp, _) := c1.deleteMetadata fuel r.parentId true
-            (cp, d.add dp)
-          else (c1, d)
-        let d3 := if r.phy && !garbage then { d2 with payload := d2.payload - r.size } else d2
-        (c2, d3, false)
+        let c1 := c.dropId id
+        -- the parent's index goes with its last child
+        let p : Cnr × Diff × Bool :=
+          if r.parentId != 0 && c1.parentInfo r.parentId == .none then c1.deleteMetadata fuel r.parentId true
+          else (c1, {}, false)
+        let d2 := (recDiff r garbage).add p.2.1
+        (p.1, if r.phy && !garbage then { d2 with payload := d2.payload - r.size } else d2, false)
 
 /-- `supplementRemovedObjects`: EC parts of the listed parents are removed with them -/
 def Cnr.supplement (c : Cnr) (ids : List Nat) : List Nat :=
@@ -498,13 +507,22 @@ def dbDelete (db : DB) (cn : Nat) (ids : List Nat) : DB :=
 inductive ReviveRes | notRemoved | containerGarbage | garbage | graveyard (tomb : Nat) | error
   deriving DecidableEq, Repr
 
-/-- first step of `ReviveObject`: an object in the graveyard loses its tombstone object -/
-def Cnr.reviveDropTomb (c : Cnr) (id : Nat) (st : Status) : Cnr × ReviveRes :=
-  if st == .tombstoned then
+/-- delete tombstone objects of `id` one by one (at most `fuel`, each deletion removes one) -/
+def Cnr.dropTombs (c : Cnr) (id : Nat) : Nat → Cnr
+  | 0 => c
+  | fuel + 1 =>
     match c.assocTyped 0 id .tombstone with
     | some tomb =>
       let r := c.deleteMetadata 4 tomb false
-      ({ r.1 with ctr := r.1.ctr.apply r.2.1 }, .graveyard tomb)
+      ({ r.1 with ctr := r.1.ctr.apply r.2.1 } : Cnr).dropTombs id fuel
+    | none => c
+
+/-- first step of `ReviveObject`: an object in the graveyard loses its tombstone objects — all of them; the
+first one is reported -/
+def Cnr.reviveDropTomb (c : Cnr) (id : Nat) (st : Status) : Cnr × ReviveRes :=
+  if st == .tombstoned then
+    match c.assocTyped 0 id .tombstone with
+    | some tomb => (c.dropTombs id c.recs.length, .graveyard tomb)
     | none => (c, .error)
   else (c, .garbage)
 
